@@ -426,6 +426,30 @@ def run_shard(shard, tier, seed, acc) -> None:
                     acc.outcome("api-pad:misaligned-rejected")
                 if aligned:
                     acc.set_add("aligned_pads", reply[0]["pad"])
+        # failing GetKey: the server's HRESULT reaches the caller whatever the auth padding looks like (length, fill, alloc_hint), and
+        # different HRESULTs give different errors - the reply decoder sees the stub without the padding
+        blob0 = cms.ref_encrypt(rk, sid, b"c13", (361, 3, 5), cek=d.bytes(32), gcm_nonce_=d.bytes(12), key_nonce=d.bytes(32), domain="d", forest="d")
+        per_h: t.Dict[int, t.Set[t.Tuple[str, str]]] = {}
+        for hres in (0x80070005, 0x80070002, 0x8009030C, 0x00000001, 0xC0000022):
+            for pad, ah, fill in [(None, "padded", 0), (None, "padded", 0xE7), (28, "padded", 0), (28, "unpadded", 0xE7), (44, "zero", 0x01), (None, "16", 0xFF)]:
+                dc = refdc.DC([rk], now=(361, 10, 12), domain="d", forest="d")
+                dc.force_hresult, dc.reply_pad, dc.reply_alloc_hint, dc.reply_pad_fill = hres, pad, ah, fill
+                case = ["api-pad-error", api, hres, pad, ah, fill]
+                with transport.network(dc), secctx.scripted_client(lambda u, p, **kw: secctx.ScriptedContext([b"C1"], 16)):
+                    try:
+                        kw = dict(server="dc", username="u", password="p", auth_protocol="ntlm")
+                        v = dpapi_ng.ncrypt_unprotect_secret(blob0, **kw) if api == "sync" else vloop.run(dpapi_ng.async_ncrypt_unprotect_secret(blob0, **kw))
+                        acc.violate("api-pad-error.no-error", case, {"returned": repr(bytes(v))[:60]})
+                        continue
+                    except Exception as e:  # noqa: BLE001
+                        per_h.setdefault(hres, set()).add((type(e).__name__, str(e)))
+                n += 1
+            if len(per_h.get(hres, ())) > 1:
+                acc.violate("api-pad-error.depends-on-padding", ["api-pad-error", api, hres], {"outcomes": sorted(per_h[hres])[:4]})
+        firsts = [sorted(v_)[0] for v_ in per_h.values() if v_]
+        if len(set(firsts)) != len(firsts):
+            acc.violate("api-pad-error.hresult-lost", ["api-pad-error", api, "all"], {"outcomes": firsts})
+        acc.outcome("api-pad-error:judged")
         acc.sample({"api": api, "public API GetKey replies": "envelope lengths (domain 0..8) x pad_length 0..15,16,28,255"})
     acc.ev(n)
     acc.nt_counted(n)
@@ -458,7 +482,7 @@ def replay(case, seed, acc) -> None:
             if (ln + pad) % 16 == 0:
                 acc.violate(f"reply.exc.{type(e).__name__}", case, {"exc": repr(e)})
     else:
-        run_shard([what, api] + (list(case[2:4]) if what in ("seq", "fault") else []), "quick", seed, acc)
+        run_shard(["api-pad" if what == "api-pad-error" else what, api] + (list(case[2:4]) if what in ("seq", "fault") else []), "quick", seed, acc)
         for k in list(acc.violations):
             acc.violations[k] = [e for e in acc.violations[k] if e["case"] == case]
             if not acc.violations[k]:
